@@ -304,6 +304,43 @@ def correspond(ctx, scale):
                 if problems:
                     failures.append({'key': f'{cfg["name"]}:ragged-compact:' + problems[0].split(' ')[0], 'what': f'{cfg["name"]}: masked ragged batch (lens {lens}) differs from the call on the concatenated valid tokens in {problems}',
                                      'case': dict(name=cfg['name'], lens=lens)})
+        # (6b) memory layout: the same masked call on a dense PERMUTED VIEW of the input (conv features '(b, d, n)' viewed channel-last, a time-major batch
+        # viewed batch-first) - an in-place write through reshape() lands in a copy there.  Compared with the contiguous call up to float rounding
+        # (a different memory layout may change the order of float sums in the last bit), indices exactly.
+        if cfg['kind'] in ('vq', 'rvq', 'grvq', 'lfq', 'rlfq') and 'stochastic' not in cfg['name'] and 'kmeans' not in cfg['name']:
+            try:
+                base_l = cfg['mk']()
+                b, n = 3, 4
+                if cfg['kind'] in ('lfq', 'rlfq'):
+                    m_l = torch.tensor([True, False, True])[:, None].expand(b, n).contiguous()       # LFQ masks are per-sample
+                else:
+                    m_l = torch.arange(n)[None, :] < torch.tensor([n, 2, 1])[:, None]
+                x_l = torch.randn(b, n, cfg['dim'])
+                if cfg['kind'] not in ('lfq', 'rlfq'):
+                    x_l = torch.where(m_l[..., None], x_l, torch.full_like(x_l, [50.0, float('inf'), 3e30][len(cfg['name']) % 3]))
+                outs_l = []
+                for vname, xv in [('contiguous', x_l), ('feature-permuted-view', x_l.permute(2, 0, 1).contiguous().permute(1, 2, 0)), ('batch-permuted-view', x_l.transpose(0, 1).contiguous().transpose(0, 1))]:
+                    for train_l in (False, True):
+                        mod_l = copy.deepcopy(base_l)
+                        rl = call(cfg, mod_l, xv, m_l, train_l, 11)
+                        outs_l.append((vname, train_l, tensors_of(rl), state_of(mod_l)))
+                evaluations += 1
+                dist['permuted_view_masked_calls'] = dist.get('permuted_view_masked_calls', 0) + 1
+                for vname, train_l, tv, sv in outs_l[2:]:
+                    _, _, t0, s0 = outs_l[0] if not train_l else outs_l[1]
+                    bad_l = []
+                    for i_, (u, v) in enumerate(zip(t0, tv)):
+                        if u.shape != v.shape or (u.dtype.is_floating_point and not torch.allclose(u, v, atol=1e-5, rtol=1e-4, equal_nan=True)) or (not u.dtype.is_floating_point and not torch.equal(u, v)):
+                            bad_l.append(['output', 'indices', 'loss'][min(i_, 2)])
+                    for k_ in s0:
+                        if s0[k_].dtype.is_floating_point and not torch.allclose(s0[k_], sv[k_], atol=1e-5, rtol=1e-4):
+                            bad_l.append('state ' + k_)
+                    if bad_l:
+                        failures.append({'key': f'{cfg["name"]}:masked-call-depends-on-memory-layout:{bad_l[0].split(" ")[0]}', 'what': f'{cfg["name"]} (train={train_l}): the masked call on a {vname} of the same values differs from the contiguous call in {bad_l[:4]}',
+                                         'case': dict(name=cfg['name'], variant=vname, train=train_l)})
+                        break
+            except Exception as ex:
+                failures.append({'key': f'{cfg["name"]}:memory-layout:exception:{type(ex).__name__}', 'what': f'{cfg["name"]}: {ex!r}', 'case': dict(name=cfg['name'])})
         # (7) non-finite padding (inf / nan: uninitialised memory, an overflowed upstream activation) and the BACKWARD pass: outputs at valid positions,
         # every loss term, the input gradient at valid positions and every parameter gradient are those of the zero-padded call, and finite
         if cfg['kind'] in ('vq', 'rvq') and 'stochastic' not in cfg['name'] and 'kmeans' not in cfg['name'] and 'expiry' not in cfg['name']:
